@@ -230,8 +230,12 @@ def run(ctx, chk, tier):
                     chk.hold("R06.3", tag + ":crossing", "f(x) = -(T_fpr(0) - T_fnr(0)) * (T_fpr(x) - T_fnr(x))")
                 elif same(fx, neg(want_f)):
                     chk.violation("R06.3", EERQ, tag + ":crossing-sign", show(fx, 200), show(want_f, 200) + "  (normalised so that f(0) <= 0)", ctx.where(EERQ))
-                else:
+                elif all((isinstance(a, App) and a.fn in ("TFPR", "TFNR")) or a == X for a in atoms_of(fx) if isinstance(a, (App, Sym))):
                     chk.violation("R06.3", EERQ, tag + ":crossing", show(fx, 240), show(want_f, 240), ctx.where(EERQ))
+                else:
+                    # the crossing function does not go through the threshold setters the rule replaces by tokens (a private implementation
+                    # bound some other way): its value cannot be compared in this vocabulary
+                    chk.unknown("R06.3", "%s: crossing function is not expressed through threshold_at_fpr / threshold_at_fnr: %s" % (tag, show(fx, 160)))
     prerequisites(ctx, chk, tier)
     chk.floor("R06.1", 12, "non-zero return paths over 2 directions x easy/no-easy")
     chk.floor("R06.2", 4, "zero paths")
@@ -312,8 +316,15 @@ def find_root(ctx, chk):
     f = Sym("f", ("callable", "param"))
     XA, XE = Sym("xa", ("float", "notnone")), Sym("xe", ("float", "notnone"))
     fn = ctx.fn(ROOTQ)
+    # the bracket variables by ROLE: the second and third positional parameters (lower end, upper end), whatever they are called
+    fi_ = ctx.db.function(ROOTQ)
+    pn = [a.arg for a in fi_.node.args.posonlyargs + fi_.node.args.args if a.arg not in ("self", "cls")]
+    if len(pn) < 4:
+        chk.unknown("R06.4", "_find_root has %d positional parameters (function, lower, upper, flag expected)" % len(pn))
+        return
+    FN_, LO_, HI_, FLAG_ = pn[0], pn[1], pn[2], ("find_first" if "find_first" in pn else pn[3])
     for first in (True, False):
-        outs = ctx.explore(lambda: ctx.call_named(fn, [("f", f), ("xa", XA), ("xe", XE), ("find_first", Const(first))]), chk)
+        outs = ctx.explore(lambda: ctx.ev.call(fn, [], {FN_: f, LO_: XA, HI_: XE, FLAG_: Const(first)}), chk)
         rets, rs = returns(outs), raises(outs)
         inst = "find_first=%s" % first
         fa, fe = App("call", (f, Tup([XA]))), App("call", (f, Tup([XE])))
@@ -337,8 +348,8 @@ def find_root(ctx, chk):
             if not its:
                 continue
             it = its[0]
-            a0, e0 = it["pre"].get("xa"), it["pre"].get("xe")
-            a1, e1 = it["post"].get("xa"), it["post"].get("xe")
+            a0, e0 = it["pre"].get(LO_), it["pre"].get(HI_)
+            a1, e1 = it["post"].get(LO_), it["post"].get(HI_)
             if a0 is None or e0 is None or a1 is None or e1 is None:
                 chk.unknown("R06.4", "loop variables of _find_root not recognised")
                 continue
@@ -377,8 +388,10 @@ def find_root(ctx, chk):
             v = o.value
             fin = [a for a in atoms_of(v) if isinstance(a, Sym) and a.name.startswith("afterwhile:")]
             names = sorted(a.name.split("#")[0] for a in fin)
-            if isinstance(v, (Num, App, Sym)) and names == ["afterwhile:xa", "afterwhile:xe"] and same(v, div(add(fin[0], fin[1]), Const(2))):
+            if isinstance(v, (Num, App, Sym)) and names == sorted(["afterwhile:" + LO_, "afterwhile:" + HI_]) and same(v, div(add(fin[0], fin[1]), Const(2))):
                 chk.hold("R06.4", inst + ":result", "returns the midpoint of the final bracket")
+            elif not (set(names) <= {"afterwhile:" + LO_, "afterwhile:" + HI_}):
+                chk.unknown("R06.4", "%s: the result is built from loop state other than the bracket ends: %s" % (inst, show(v, 120)))
             else:
                 chk.violation("R06.4", ROOTQ, inst + ":result", show(v, 120), "(xa + xe)/2 of the final bracket", ctx.where(ROOTQ))
     chk.floor("R06.4", 6, "precondition, bisection step, result x find_first in {True, False}")
